@@ -1417,6 +1417,37 @@ fn handle_fn(
                     None => return Err(format!("closure {} not found ({} closures)", n, scan.closures.len())),
                 };
                 let header = e["header"].as_str().ok_or("closure: header missing")?;
+                // guard against ordinal drift (a closure inserted or removed earlier in the body): the annotated header must name the same
+                // parameters as the closure it lands on (`_` and destructuring patterns match anything); otherwise the anchor is lost
+                {
+                    let names = |t: &str| -> Option<Vec<String>> {
+                        let a = t.find('|')?;
+                        let b = t[a + 1..].find('|')? + a + 1;
+                        let inner = &t[a + 1..b];
+                        let mut out = vec![];
+                        let mut depth = 0i32;
+                        let mut cur = String::new();
+                        for ch in inner.chars() {
+                            match ch {
+                                '(' | '[' | '<' | '{' => { depth += 1; cur.push(ch); }
+                                ')' | ']' | '>' | '}' => { depth -= 1; cur.push(ch); }
+                                ',' if depth == 0 => { out.push(std::mem::take(&mut cur)); }
+                                _ => cur.push(ch),
+                            }
+                        }
+                        if !cur.trim().is_empty() {
+                            out.push(cur);
+                        }
+                        Some(out.into_iter().map(|p| p.split(':').next().unwrap_or("").trim().trim_start_matches("mut ").trim().to_string()).collect())
+                    };
+                    if let (Some(orig), Some(want)) = (names(&src[c.header.clone()]), names(header)) {
+                        let simple = |x: &str| !x.is_empty() && x != "_" && x.chars().all(|ch| ch.is_alphanumeric() || ch == '_');
+                        let bad = orig.len() != want.len() || orig.iter().zip(want.iter()).any(|(o, w)| simple(o) && simple(w) && !w.starts_with("__") && o != w);
+                        if bad {
+                            return Err(format!("lost anchor: closure {} has parameters ({}) but its annotation expects ({})", n, orig.join(", "), want.join(", ")));
+                        }
+                    }
+                }
                 edits.replace(c.header.clone(), format!("{} ", header));
                 if !c.body_is_block {
                     edits.insert(c.body.start, "{ ");
